@@ -203,8 +203,34 @@ func (p *Program) Callees(site ssa.CallInstruction) []*ssa.Function {
 	if len(out) == 0 && site.Common().IsInvoke() {
 		collect(p.CHA())
 	}
+	// bound-method closures and thunks are synthetic wrappers around one call
+	for i, f := range out {
+		out[i] = unwrapSynthetic(f)
+	}
 	sort.Slice(out, func(i, j int) bool { return out[i].String() < out[j].String() })
 	return out
+}
+
+func unwrapSynthetic(f *ssa.Function) *ssa.Function {
+	for depth := 0; depth < 3 && f != nil && f.Synthetic != "" && f.Blocks != nil; depth++ {
+		var inner *ssa.Function
+		n := 0
+		for _, b := range f.Blocks {
+			for _, ins := range b.Instrs {
+				if c, ok := ins.(ssa.CallInstruction); ok {
+					if g := c.Common().StaticCallee(); g != nil {
+						inner = g
+						n++
+					}
+				}
+			}
+		}
+		if n != 1 {
+			return f
+		}
+		f = inner
+	}
+	return f
 }
 
 // Pkg returns the first-party package with the given path relative to the module
